@@ -9,30 +9,41 @@ import (
 	"io"
 	"net/http"
 	"net/http/httptest"
+	"strconv"
 	"strings"
 	"time"
 	"unicode/utf8"
 
+	"github.com/NethermindEth/juno/db"
 	"github.com/NethermindEth/juno/jsonrpc"
 	"github.com/NethermindEth/juno/utils/log"
 	"github.com/coder/websocket"
 	"verif/harness/lib"
 )
 
+const httpBodyLimit = 10 * db.Megabyte // http.go: MaxRequestBodySize
+const modelInputLimit = 64 << 10       // larger inputs are compared with HandleReader only, not sent to the driver
+
+func parseBody(b []byte) *J {
+	if len(b) == 0 {
+		return nil
+	}
+	raw, err := firstValue(b)
+	if err != nil || len(strings.TrimSpace(string(b[len(raw):]))) != 0 {
+		return jStr("\x00not-json:" + string(b))
+	}
+	t, err := parseTree(raw)
+	if err != nil {
+		return jStr("\x00not-json:" + string(b))
+	}
+	return t
+}
+
 // sameOutputs: the transport must deliver what HandleReader produces (batch order is free)
 func sameOutputs(direct, via []byte, batch bool) bool {
-	if len(direct) == 0 || len(via) == 0 {
-		return len(direct) == len(via)
-	}
-	dr, err1 := firstValue(direct)
-	vr, err2 := firstValue(via)
-	if err1 != nil || err2 != nil {
-		return false
-	}
-	dt, err1 := parseTree(dr)
-	vt, err2 := parseTree(vr)
-	if err1 != nil || err2 != nil {
-		return false
+	dt, vt := parseBody(direct), parseBody(via)
+	if dt == nil || vt == nil {
+		return dt == vt
 	}
 	if batch && dt.K == '[' && vt.K == '[' {
 		return matchMultiset(dt.A, vt.A)
@@ -40,22 +51,15 @@ func sameOutputs(direct, via []byte, batch bool) bool {
 	return sameModelImpl(dt, vt)
 }
 
-func (rn *runner) transportVerdicts(w *World, input []byte, direct, o Obs, via string) {
-	res := rn.res
-	res.Case(via+":"+string(input), true)
-	res.Hit("transport:" + via)
-	_, tree, parses := inLine(input)
-	res.Compared(1)
-	if !o.Hung && !o.Panicked && o.Err == nil {
-		if !sameOutputs(direct.Out, o.Out, parses && tree.K == '[') || callsText(sortedCalls(direct.Calls)) != callsText(sortedCalls(o.Calls)) {
-			res.Mismatch(lib.Mismatch{Sig: "transport-" + via + "-differs-from-HandleReader", Input: describe(input),
-				Model: map[string]string{"out": string(direct.Out), "calls": callsText(direct.Calls)},
-				Impl:  map[string]string{"out": string(o.Out), "calls": callsText(o.Calls)}})
-		}
+func sameBody(model *J, via []byte, batch bool) bool {
+	vt := parseBody(via)
+	if model == nil || vt == nil {
+		return model == vt
 	}
-	for _, v := range judge(w, input, o) {
-		res.Violate(lib.Violation{Sig: v.Sig, What: "[" + via + "] " + v.What, Replay: mkReplay(w, input, via)})
+	if batch && model.K == '[' && vt.K == '[' {
+		return matchMultiset(model.A, vt.A)
 	}
+	return sameModelImpl(model, vt)
 }
 
 func sortedCalls(cs []Call) []Call {
@@ -68,102 +72,290 @@ func sortedCalls(cs []Call) []Call {
 	return out
 }
 
-func (rn *runner) transports(w *World, inputs [][]byte) {
-	res := rn.res
-	logger := log.NewNopZapLogger()
-
-	// ---- HTTP -----------------------------------------------------------------------------
-	hs := httptest.NewServer(jsonrpc.NewHTTP(w.Server, logger))
-	clients := []*http.Client{
-		{Timeout: 20 * time.Second}, // default transport asks for gzip and decodes it
-		{Timeout: 20 * time.Second, Transport: &http.Transport{DisableCompression: true}},
+func sameLog(model *J, calls []Call) bool {
+	want := map[string]int{}
+	for _, c := range model.A {
+		if c.K != '[' || len(c.A) != 2 {
+			return false
+		}
+		want[Call{Method: c.A[0].S, Args: c.A[1].A}.String()]++
 	}
-	for i, in := range inputs {
-		direct := w.handle(in)
+	got := map[string]int{}
+	for _, c := range calls {
+		got[c.String()]++
+	}
+	if len(want) != len(got) {
+		return false
+	}
+	for k, n := range want {
+		if got[k] != n {
+			return false
+		}
+	}
+	return true
+}
+
+func isBatchShaped(input []byte) bool {
+	_, tree, parses := inLine(input)
+	return parses && tree.K == '['
+}
+
+func (rn *runner) transportVerdicts(w *World, input []byte, direct, o Obs, via string) {
+	res := rn.res
+	res.Case(via+":"+string(input), true)
+	res.Hit("transport:" + via)
+	res.Compared(1)
+	if !o.Hung && !o.Panicked && o.Dropped == "" && o.Err == nil {
+		if !sameOutputs(direct.Out, o.Out, isBatchShaped(input)) || callsText(sortedCalls(direct.Calls)) != callsText(sortedCalls(o.Calls)) {
+			res.Mismatch(lib.Mismatch{Sig: "transport-" + via + "-differs-from-HandleReader", Input: describe(input),
+				Model: map[string]string{"out": string(direct.Out), "calls": callsText(direct.Calls)},
+				Impl:  map[string]string{"out": string(o.Out), "calls": callsText(o.Calls)}})
+		}
+	}
+	for _, v := range judge(w, input, o) {
+		res.Violate(lib.Violation{Sig: v.Sig, What: "[" + via + "] " + v.What, Replay: mkReplay(w, input, via)})
+	}
+}
+
+// inArgs: the part of an `in` line after the keyword, for the first JSON value of at most limit bytes
+func inArgs(input []byte, limit int) string {
+	if len(input) > limit {
+		input = input[:limit]
+	}
+	line, _, _ := inLine(input)
+	return strings.TrimPrefix(line, "in ")
+}
+
+// ---- HTTP -----------------------------------------------------------------------------------
+
+func (rn *runner) httpTransport(w *World, inputs [][]byte) {
+	res := rn.res
+	hs := httptest.NewServer(jsonrpc.NewHTTP(w.Server, log.NewNopZapLogger()))
+	defer hs.Close()
+	clients := []*http.Client{
+		{Timeout: 30 * time.Second}, // default transport asks for gzip and decodes it
+		{Timeout: 30 * time.Second, Transport: &http.Transport{DisableCompression: true}},
+	}
+	type shot struct {
+		method, path string
+		body         []byte
+	}
+	var shots []shot
+	for _, in := range inputs {
+		shots = append(shots, shot{"POST", lib.Pick(lib.NewRNG(uint64(len(in))), []string{"/", "/", "/v0_8", "/x/y"}), in})
+	}
+	// every method on two paths: only POST reaches the dispatcher
+	probeBodies := [][]byte{[]byte(`{"jsonrpc":"2.0","method":"noargs","id":1}`), []byte(`{"jsonrpc":"2.0","method":"noargs"}`), []byte(`garbage`), nil}
+	for _, m := range []string{"GET", "HEAD", "POST", "PUT", "DELETE", "PATCH", "OPTIONS", "TRACE", "CONNECT?"} {
+		for _, p := range []string{"/", "/health", "/v0_9"} {
+			for _, b := range probeBodies {
+				shots = append(shots, shot{strings.TrimSuffix(m, "?"), p, b})
+			}
+		}
+	}
+	var lines []string
+	for _, s := range shots {
+		mm := "other"
+		switch s.method {
+		case "GET":
+			mm = "get"
+		case "POST":
+			mm = "post"
+		}
+		root := 0
+		if s.path == "/" {
+			root = 1
+		}
+		if len(s.body) > modelInputLimit {
+			lines = append(lines, "defaults") // placeholder: not sent to the model
+		} else {
+			lines = append(lines, fmt.Sprintf("http %s %d %s", mm, root, inArgs(s.body, httpBodyLimit)))
+		}
+	}
+	answers, err := rn.drv.AskAll(lines)
+	if err != nil {
+		res.Note("http: %v", err)
+		res.Mismatch(lib.Mismatch{Sig: "harness-run-aborted", Model: err.Error()})
+		return
+	}
+	for i, s := range shots {
+		if s.method == "CONNECT" {
+			continue // not routable through the test client
+		}
+		var direct Obs
+		if s.method == "POST" {
+			direct = w.handle(s.body)
+		}
 		w.reset()
 		var o Obs
-		resp, err := clients[i%2].Post(hs.URL, "application/json", bytes.NewReader(in))
+		status, ctype, clen := 0, "", ""
+		req, _ := http.NewRequest(s.method, hs.URL+s.path, bytes.NewReader(s.body))
+		req.Header.Set("Content-Type", "application/json")
+		resp, err := clients[i%2].Do(req)
 		if err != nil {
 			o.Hung = strings.Contains(err.Error(), "Timeout") || strings.Contains(err.Error(), "deadline")
 			if !o.Hung {
-				o.Panicked, o.PanicMsg = true, "http request failed (connection dropped by the server): "+err.Error()
+				o.Dropped = "http request failed (connection dropped by the server): " + err.Error()
 			}
 		} else {
 			body, rerr := io.ReadAll(resp.Body)
 			resp.Body.Close()
-			o.Out = body
-			if rerr != nil {
-				o.Err = rerr
-			}
-			if resp.StatusCode != http.StatusOK {
-				res.Violate(lib.Violation{Sig: "http-status-not-200", What: fmt.Sprintf("[http] status %d for input %s", resp.StatusCode, describe(in)),
-					Replay: mkReplay(w, in, "http")})
-			}
-			if ct := resp.Header.Get("Content-Type"); ct != "application/json" {
-				res.Violate(lib.Violation{Sig: "http-content-type-not-json", What: fmt.Sprintf("[http] Content-Type %q for input %s", ct, describe(in)),
-					Replay: mkReplay(w, in, "http")})
-			}
+			o.Out, o.Err = body, rerr
+			status, ctype, clen = resp.StatusCode, resp.Header.Get("Content-Type"), resp.Header.Get("Content-Length")
 		}
 		o.Calls, o.RecErrs = w.taken()
-		rn.transportVerdicts(w, in, direct, o, "http")
+		res.Hit(fmt.Sprintf("http:%s:status-%d", s.method, status))
+		if s.method == "POST" {
+			rn.transportVerdicts(w, s.body, direct, o, "http")
+			if err == nil && status != http.StatusOK {
+				res.Violate(lib.Violation{Sig: "http-status-not-200", What: fmt.Sprintf("[http] status %d for input %s", status, describe(s.body)),
+					Replay: mkReplay(w, s.body, "http")})
+			}
+			if err == nil && ctype != "application/json" {
+				res.Violate(lib.Violation{Sig: "http-content-type-not-json", What: fmt.Sprintf("[http] Content-Type %q for input %s", ctype, describe(s.body)),
+					Replay: mkReplay(w, s.body, "http")})
+			}
+			if err == nil && i%2 == 1 && clen != "" && clen != strconv.Itoa(len(o.Out)) {
+				res.Violate(lib.Violation{Sig: "http-content-length-wrong", What: fmt.Sprintf("[http] Content-Length %s, body has %d bytes, input %s", clen, len(o.Out), describe(s.body)),
+					Replay: mkReplay(w, s.body, "http")})
+			}
+		} else {
+			res.Case("http:"+s.method+s.path+string(s.body), true)
+			if len(o.Calls) > 0 {
+				res.Violate(lib.Violation{Sig: "http-non-post-invokes-handler", What: fmt.Sprintf("[http] %s %s ran %s", s.method, s.path, callsText(o.Calls)),
+					Replay: map[string]string{"method": s.method, "path": s.path, "body": string(s.body)}})
+			}
+		}
+		// model of ServeHTTP
+		if err != nil || len(s.body) > modelInputLimit || answers[i] == "dk" {
+			continue
+		}
+		res.Compared(1)
+		f := strings.Fields(answers[i])
+		bad := func(why string) {
+			res.Mismatch(lib.Mismatch{Sig: "http: " + why, Input: map[string]string{"method": s.method, "path": s.path, "body": describe(s.body)},
+				Model: answers[i], Impl: map[string]any{"status": status, "content-type": ctype, "body": string(o.Out), "calls": callsText(o.Calls)}})
+		}
+		if len(f) < 3 {
+			bad("driver answer unreadable")
+			continue
+		}
+		mt, rest, perr := fromTokens(f[2:])
+		if perr != nil || len(rest) != 0 || mt.K != '[' || len(mt.A) != 2 {
+			bad("driver answer unreadable")
+			continue
+		}
+		var mbody *J
+		if len(mt.A[0].A) == 1 {
+			mbody = mt.A[0].A[0]
+		}
+		switch {
+		case f[0] != strconv.Itoa(status):
+			bad("status differs")
+		case (f[1] == "1") != (ctype == "application/json"):
+			bad("Content-Type differs")
+		case s.method != "HEAD" && !sameBody(mbody, o.Out, isBatchShaped(s.body)):
+			bad("body differs")
+		case !sameLog(mt.A[1], o.Calls):
+			bad("handler invocations differ")
+		}
 	}
-	hs.Close()
+}
 
-	// ---- WebSocket ------------------------------------------------------------------------
+// ---- WebSocket ------------------------------------------------------------------------------
+
+type wsClient struct {
+	url  string
+	conn *websocket.Conn
+	n    int
+}
+
+func (c *wsClient) dial() error {
+	ctx, cancel := context.WithTimeout(context.Background(), 10*time.Second)
+	defer cancel()
+	conn, _, err := websocket.Dial(ctx, c.url, nil)
+	if err != nil {
+		return err
+	}
+	conn.SetReadLimit(256 << 20)
+	c.conn = conn
+	return nil
+}
+
+// exchange sends the messages back to back on the connection, then a sentinel request, and returns
+// every message the server sent before the sentinel's response.
+func (c *wsClient) exchange(msgs [][]byte) (got [][]byte, hung bool, err error) {
+	c.n++
+	sentinelID := fmt.Sprintf("__sentinel__%d", c.n)
+	sentinel := fmt.Sprintf(`{"jsonrpc":"2.0","method":"noargs","id":%q}`, sentinelID)
+	ctx, cancel := context.WithTimeout(context.Background(), 30*time.Second)
+	defer cancel()
+	for _, m := range msgs {
+		mt := websocket.MessageText
+		if !utf8.Valid(m) {
+			mt = websocket.MessageBinary
+		}
+		if err = c.conn.Write(ctx, mt, m); err != nil {
+			break
+		}
+	}
+	if err == nil {
+		err = c.conn.Write(ctx, websocket.MessageText, []byte(sentinel))
+	}
+	for err == nil {
+		var data []byte
+		_, data, err = c.conn.Read(ctx)
+		if err != nil {
+			break
+		}
+		if strings.Contains(string(data), sentinelID) {
+			return got, false, nil
+		}
+		got = append(got, data)
+	}
+	return got, ctx.Err() != nil, err
+}
+
+func dropSentinelCall(calls []Call) []Call {
+	for k := len(calls) - 1; k >= 0; k-- {
+		if calls[k].Method == "noargs" && len(calls[k].Args) == 0 {
+			return append(calls[:k:k], calls[k+1:]...)
+		}
+	}
+	return calls
+}
+
+func (rn *runner) wsTransport(w *World, inputs [][]byte, sessions [][][]byte) {
+	res := rn.res
 	shutdown := make(chan struct{})
-	ws := httptest.NewServer(jsonrpc.NewWebsocket(w.Server, shutdown, logger))
+	ws := httptest.NewServer(jsonrpc.NewWebsocket(w.Server, shutdown, log.NewNopZapLogger()))
 	defer ws.Close()
 	defer close(shutdown)
-	var conn *websocket.Conn
-	dial := func() error {
-		ctx, cancel := context.WithTimeout(context.Background(), 10*time.Second)
-		defer cancel()
-		c, _, err := websocket.Dial(ctx, ws.URL, nil)
-		if err != nil {
-			return err
-		}
-		c.SetReadLimit(64 << 20)
-		conn = c
-		return nil
-	}
-	if err := dial(); err != nil {
+	c := &wsClient{url: ws.URL}
+	if err := c.dial(); err != nil {
 		res.Note("websocket dial failed: %v", err)
 		res.Mismatch(lib.Mismatch{Sig: "websocket-dial-failed", Model: err.Error()})
 		return
 	}
-	for i, in := range inputs {
+	redial := func() bool {
+		c.conn.CloseNow()
+		if err := c.dial(); err != nil {
+			res.Note("websocket re-dial failed: %v", err)
+			return false
+		}
+		return true
+	}
+	// 1. one message at a time: full oracle
+	for _, in := range inputs {
 		direct := w.handle(in)
 		w.reset()
-		sentinelID := fmt.Sprintf("__sentinel__%d", i)
-		sentinel := fmt.Sprintf(`{"jsonrpc":"2.0","method":"noargs","id":%q}`, sentinelID)
+		msgs, hung, err := c.exchange([][]byte{in})
 		var o Obs
-		ctx, cancel := context.WithTimeout(context.Background(), 20*time.Second)
-		mt := websocket.MessageText
-		if !utf8.Valid(in) {
-			mt = websocket.MessageBinary
-		}
-		err := conn.Write(ctx, mt, in)
-		if err == nil {
-			err = conn.Write(ctx, websocket.MessageText, []byte(sentinel))
-		}
-		var msgs [][]byte
-		for err == nil {
-			var data []byte
-			_, data, err = conn.Read(ctx)
-			if err != nil {
-				break
-			}
-			if strings.Contains(string(data), sentinelID) {
-				break
-			}
-			msgs = append(msgs, data)
-		}
-		cancel()
 		switch {
-		case err != nil && ctx.Err() != nil:
+		case hung:
 			o.Hung = true
 		case err != nil:
-			o.Panicked, o.PanicMsg = true, "websocket connection closed by the server: "+err.Error()
+			o.Dropped = "websocket connection closed by the server: " + err.Error()
 		case len(msgs) > 1:
 			o.Out = bytes.Join(msgs, []byte(" "))
 			res.Violate(lib.Violation{Sig: "websocket-several-messages-for-one-request", What: fmt.Sprintf("[ws] %d messages for input %s", len(msgs), describe(in)),
@@ -176,22 +368,252 @@ func (rn *runner) transports(w *World, inputs [][]byte) {
 			}
 		}
 		calls, recErrs := w.taken()
-		// drop the sentinel's own invocation
-		for k, c := range calls {
-			if c.Method == "noargs" && len(c.Args) == 0 {
-				calls = append(calls[:k:k], calls[k+1:]...)
-				break
-			}
-		}
-		o.Calls, o.RecErrs = calls, recErrs
+		o.Calls, o.RecErrs = dropSentinelCall(calls), recErrs
 		rn.transportVerdicts(w, in, direct, o, "ws")
-		if err != nil {
-			conn.CloseNow()
-			if derr := dial(); derr != nil {
-				res.Note("websocket re-dial failed: %v", derr)
-				return
-			}
+		if err != nil && !redial() {
+			return
 		}
 	}
-	conn.Close(websocket.StatusNormalClosure, "")
+	// 2. several messages on one connection: sequencing, frames with trailing bytes, model of the session
+	var lines []string
+	for _, s := range sessions {
+		var sb strings.Builder
+		fmt.Fprintf(&sb, "ws %d", len(s))
+		small := true
+		for _, m := range s {
+			if len(m) > modelInputLimit {
+				small = false
+			}
+			sb.WriteByte(' ')
+			sb.WriteString(inArgs(m, len(m)))
+		}
+		if small {
+			lines = append(lines, sb.String())
+		} else {
+			lines = append(lines, "defaults")
+		}
+	}
+	answers, err := rn.drv.AskAll(lines)
+	if err != nil {
+		res.Note("ws: %v", err)
+		res.Mismatch(lib.Mismatch{Sig: "harness-run-aborted", Model: err.Error()})
+		return
+	}
+	for si, s := range sessions {
+		// what HandleReader says for each message alone
+		var wantWire [][]byte
+		var wantBatch []bool
+		var wantCalls []Call
+		answered := make([]bool, len(s))
+		for mi, m := range s {
+			d := w.handle(m)
+			if len(d.Out) > 0 {
+				wantWire = append(wantWire, d.Out)
+				wantBatch = append(wantBatch, isBatchShaped(m))
+				answered[mi] = true
+			}
+			wantCalls = append(wantCalls, d.Calls...)
+		}
+		w.reset()
+		got, hung, err := c.exchange(s)
+		calls, _ := w.taken()
+		calls = dropSentinelCall(calls)
+		key := fmt.Sprintf("ws-session:%d:%x", len(s), bytes.Join(s, []byte{0}))
+		res.Case(key, true)
+		res.Hit("transport:ws-session")
+		res.HitN("transport:ws-session-messages", len(s))
+		replay := map[string]any{"world": w.Spec, "via": "ws-session", "messages": sessionText(s)}
+		if hung {
+			res.Violate(lib.Violation{Sig: "server-hangs", What: "[ws session] no answer within the deadline; messages " + strings.Join(sessionText(s), " | "), Replay: replay})
+		} else if err != nil {
+			res.Violate(lib.Violation{Sig: "websocket-connection-closed", What: "[ws session] the server closed the connection: " + err.Error() + "; messages " + strings.Join(sessionText(s), " | "), Replay: replay})
+		}
+		if err != nil {
+			if !redial() {
+				return
+			}
+			continue
+		}
+		res.Compared(1)
+		ok := len(got) == len(wantWire)
+		for i := 0; ok && i < len(got); i++ {
+			ok = sameOutputs(wantWire[i], got[i], wantBatch[i])
+		}
+		if !ok {
+			// the property itself: one response per answered message, in message order
+			res.Violate(lib.Violation{Sig: "websocket-session-responses-lost-duplicated-or-reordered",
+				What: fmt.Sprintf("[ws session] messages %s: expected the responses %s in this order, got %s", strings.Join(sessionText(s), " | "),
+					strings.Join(sessionText(wantWire), " | "), strings.Join(sessionText(got), " | ")), Replay: replay})
+		}
+		if callsText(sortedCalls(wantCalls)) != callsText(sortedCalls(calls)) {
+			res.Violate(lib.Violation{Sig: "websocket-session-invocations-differ",
+				What: fmt.Sprintf("[ws session] messages %s: expected invocations %s, got %s", strings.Join(sessionText(s), " | "), callsText(wantCalls), callsText(calls)), Replay: replay})
+		}
+		if lines[si] == "defaults" || answers[si] == "dk" {
+			continue
+		}
+		res.Compared(1)
+		mt, rest, perr := fromTokens(strings.Fields(answers[si]))
+		why := ""
+		if perr != nil || len(rest) != 0 || mt.K != '[' || len(mt.A) != 2 {
+			why = "driver answer unreadable"
+		} else if len(mt.A[0].A) != len(got) {
+			why = "number of messages on the wire differs"
+		} else {
+			k := 0
+			for mi, m := range s {
+				if k < len(got) && answered[mi] {
+					if !sameBody(mt.A[0].A[k], got[k], isBatchShaped(m)) {
+						why = fmt.Sprintf("message %d on the wire differs", k)
+					}
+					k++
+				}
+			}
+			if why == "" && !sameLog(mt.A[1], calls) {
+				why = "handler invocations differ"
+			}
+		}
+		if why != "" {
+			res.Mismatch(lib.Mismatch{Sig: "ws-session: " + why, Input: sessionText(s), Model: modelText(answers[si]),
+				Impl: map[string]any{"wire": sessionText(got), "calls": callsText(calls)}})
+		}
+	}
+	c.conn.Close(websocket.StatusNormalClosure, "")
+}
+
+func sessionText(ms [][]byte) []string {
+	out := make([]string, len(ms))
+	for i, m := range ms {
+		out[i] = describe(m)
+	}
+	return out
+}
+
+// sessions: 2..6 messages per connection turn, including frames that carry more than one JSON value,
+// blank and empty frames, notifications and batches
+func genSessions(g *Gen, n int) [][][]byte {
+	r := g.r
+	special := func() []byte {
+		name := string(jStr(g.methodSpec().Name).bytes(nil))
+		g.nextID++
+		id := g.nextID
+		return []byte(lib.Pick(r, []string{
+			fmt.Sprintf(`{"jsonrpc":"2.0","method":%s,"id":%d} {"jsonrpc":"2.0","method":%s,"id":%d}`, name, id, name, id+100000),
+			fmt.Sprintf(`{"jsonrpc":"2.0","method":%s,"id":%d}[{"jsonrpc":"2.0","method":%s,"id":%d}]`, name, id, name, id+100000),
+			fmt.Sprintf(`{"jsonrpc":"2.0","method":%s}{"jsonrpc":"2.0","method":"nope","id":%d}`, name, id),
+			fmt.Sprintf(`[{"jsonrpc":"2.0","method":%s,"id":%d}] trailing garbage {`, name, id),
+			fmt.Sprintf(`{"jsonrpc":"2.0","method":%s,"id":%d`, name, id), // cut off: the next frame must not complete it
+			fmt.Sprintf(`,"id":%d}`, id),
+			``, ` `, "\n\n", `[]`, `null`,
+			fmt.Sprintf(`{"jsonrpc":"2.0","method":%s}`, name),
+			fmt.Sprintf(`[{"jsonrpc":"2.0","method":%s},{"jsonrpc":"2.0","method":%s}]`, name, name),
+			fmt.Sprintf(`{"jsonrpc":"2.0","method":"nope","id":%d}`, id),
+		}))
+	}
+	var out [][][]byte
+	for i := 0; i < n; i++ {
+		k := r.Range(2, 6)
+		var s [][]byte
+		for j := 0; j < k; j++ {
+			if r.Chance(2, 5) {
+				s = append(s, special())
+			} else {
+				m := g.input()
+				if len(m) > 16<<10 {
+					m = special()
+				}
+				s = append(s, m)
+			}
+		}
+		out = append(out, s)
+	}
+	return out
+}
+
+// large frames / bodies: compared with HandleReader only
+func bigInputs(thorough bool) [][]byte {
+	mk := func(n int) []byte {
+		return []byte(`{"jsonrpc":"2.0","method":"hdr","params":["` + strings.Repeat("a", n) + `"],"id":"big"}`)
+	}
+	out := [][]byte{mk(200 << 10), mk(1 << 20), []byte(strings.Repeat(" ", 1<<20) + `{"jsonrpc":"2.0","method":"noargs","id":1}`)}
+	if thorough {
+		out = append(out, mk(9<<20), mk(11<<20), mk(20<<20))
+	}
+	return out
+}
+
+func (rn *runner) transports(w *World, inputs [][]byte) {
+	if err := rn.setWorld(w); err != nil {
+		rn.res.Note("transports: %v", err)
+		rn.res.Mismatch(lib.Mismatch{Sig: "harness-run-aborted", Model: err.Error()})
+		return
+	}
+	g := &Gen{r: lib.NewRNG(rn.f.Seed).Fork(4242), w: w}
+	var sessions [][][]byte
+	if rn.f.Replay == "" {
+		sessions = genSessions(g, rn.f.Scale(120, 3000))
+	}
+	rn.httpTransport(w, inputs)
+	rn.wsTransport(w, inputs, sessions)
+	if rn.f.Replay != "" {
+		return
+	}
+	// big payloads: HTTP cuts the body at 10 MB, WebSocket reads up to 32 MB
+	for _, in := range bigInputs(rn.f.Thorough()) {
+		rn.bigPayload(w, in)
+	}
+}
+
+func (rn *runner) bigPayload(w *World, in []byte) {
+	res := rn.res
+	// HTTP: what HandleReader says about the first 10 MB followed by a read error
+	hs := httptest.NewServer(jsonrpc.NewHTTP(w.Server, log.NewNopZapLogger()))
+	defer hs.Close()
+	w.reset()
+	resp, err := (&http.Client{Timeout: 60 * time.Second}).Post(hs.URL, "application/json", bytes.NewReader(in))
+	res.Case(fmt.Sprintf("big-http:%d", len(in)), true)
+	res.Hit("transport:http-big")
+	if err != nil {
+		res.Violate(lib.Violation{Sig: "server-hangs", What: fmt.Sprintf("[http] %d-byte body: %v", len(in), err), Replay: map[string]any{"via": "http", "bytes": len(in)}})
+	} else {
+		body, _ := io.ReadAll(resp.Body)
+		resp.Body.Close()
+		calls, recErrs := w.taken()
+		o := Obs{Out: body, Calls: calls, RecErrs: recErrs}
+		if len(in) <= httpBodyLimit {
+			for _, v := range judge(w, in, o) {
+				res.Violate(lib.Violation{Sig: v.Sig, What: fmt.Sprintf("[http, %d-byte body] ", len(in)) + v.What[:min(len(v.What), 400)], Replay: map[string]any{"via": "http", "bytes": len(in)}})
+			}
+		} else if t := parseBody(body); resp.StatusCode != 200 || t == nil || t.get("error").get("code") == nil || t.get("error").get("code").S != "-32700" || len(calls) > 0 {
+			res.Violate(lib.Violation{Sig: "http-oversized-body-not-answered-with-32700",
+				What:   fmt.Sprintf("[http] %d-byte body (limit %d): status %d, body %s, calls %d", len(in), httpBodyLimit, resp.StatusCode, short(body), len(calls)),
+				Replay: map[string]any{"via": "http", "bytes": len(in)}})
+		}
+	}
+	// WebSocket
+	shutdown := make(chan struct{})
+	ws := httptest.NewServer(jsonrpc.NewWebsocket(w.Server, shutdown, log.NewNopZapLogger()))
+	defer ws.Close()
+	defer close(shutdown)
+	c := &wsClient{url: ws.URL}
+	if err := c.dial(); err != nil {
+		return
+	}
+	defer c.conn.CloseNow()
+	direct := w.handle(in)
+	w.reset()
+	msgs, hung, err := c.exchange([][]byte{in})
+	res.Case(fmt.Sprintf("big-ws:%d", len(in)), true)
+	res.Hit("transport:ws-big")
+	calls, _ := w.taken()
+	calls = dropSentinelCall(calls)
+	switch {
+	case hung:
+		res.Violate(lib.Violation{Sig: "server-hangs", What: fmt.Sprintf("[ws] %d-byte frame: no answer", len(in)), Replay: map[string]any{"via": "ws", "bytes": len(in)}})
+	case err != nil:
+		res.Violate(lib.Violation{Sig: "websocket-connection-closed", What: fmt.Sprintf("[ws] %d-byte frame: %v", len(in), err), Replay: map[string]any{"via": "ws", "bytes": len(in)}})
+	case len(msgs) != 1 || !sameOutputs(direct.Out, msgs[0], false) || callsText(sortedCalls(direct.Calls)) != callsText(sortedCalls(calls)):
+		res.Violate(lib.Violation{Sig: "websocket-large-frame-answered-differently", What: fmt.Sprintf("[ws] %d-byte frame: %d messages, first %s; HandleReader: %s", len(in), len(msgs), short(bytes.Join(msgs, nil)), short(direct.Out)),
+			Replay: map[string]any{"via": "ws", "bytes": len(in)}})
+	}
 }
